@@ -159,10 +159,10 @@ Section Infer.
     let recvD :=
       asg TScalarData b || asg TUndef b ||
       match b with
-      | TArray e' lo' hi' => size_sub 0 MaxI lo' hi' && ((hi' =? 0) || data_asg e')
+      | TArray e' lo' hi' => size_sub 0 MaxI lo' hi' && ((hi' <=? 0) || data_asg e')
       | TTuple ts _ lo' hi' =>
-          size_sub 0 MaxI lo' hi' && ((hi' =? 0) || match ts with [] => false | _ => forallb data_asg ts end)
-      | THash k' v' lo' hi' => size_sub 0 MaxI lo' hi' && ((hi' =? 0) || (asg TString k' && data_asg v'))
+          size_sub 0 MaxI lo' hi' && ((hi' <=? 0) || match ts with [] => false | _ => forallb data_asg ts end)
+      | THash k' v' lo' hi' => size_sub 0 MaxI lo' hi' && ((hi' <=? 0) || (asg TString k' && data_asg v'))
       | TStruct ms =>
           size_sub 0 MaxI (struct_required ms) (zlen ms) &&
           forallb (fun m => asg TString (actual_key (fst (snd m))) && data_asg (snd (snd m))) ms
@@ -183,10 +183,10 @@ Section Infer.
     let recvR :=
       asg TScalar b || asg TBinary b || asg TDefault b || asg (TType TAny) b || asg TUndef b ||
       match b with
-      | TArray e' lo' hi' => size_sub 0 MaxI lo' hi' && ((hi' =? 0) || rich_asg e')
+      | TArray e' lo' hi' => size_sub 0 MaxI lo' hi' && ((hi' <=? 0) || rich_asg e')
       | TTuple ts _ lo' hi' =>
-          size_sub 0 MaxI lo' hi' && ((hi' =? 0) || match ts with [] => false | _ => forallb rich_asg ts end)
-      | THash k' v' lo' hi' => size_sub 0 MaxI lo' hi' && ((hi' =? 0) || (asg rich_key k' && rich_asg v'))
+          size_sub 0 MaxI lo' hi' && ((hi' <=? 0) || match ts with [] => false | _ => forallb rich_asg ts end)
+      | THash k' v' lo' hi' => size_sub 0 MaxI lo' hi' && ((hi' <=? 0) || (asg rich_key k' && rich_asg v'))
       | TStruct ms =>
           size_sub 0 MaxI (struct_required ms) (zlen ms) &&
           forallb (fun m => asg rich_key (actual_key (fst (snd m))) && rich_asg (snd (snd m))) ms
